@@ -981,12 +981,26 @@ def _whole(name):
         def fold(xs):
             if len(xs) == 1:
                 return xs[0]
-            return Poly.atom((name + "C",) + tuple(xs))
+            return Poly.atom(("multi",) + tuple(xs))
 
         def symfold(e, lens):
+            if len(e.t) == 1:
+                ((m, c),) = e.t.items()
+                if c == alg.ONE and len(m) == 1 and m[0][0][0] == "multi" and m[0][1] == 1:
+                    return Poly.atom((name + "M", tuple(lens)) + tuple(m[0][0][1:]))
             return SO.sym_stat(name, e, lens)
 
-        return T.reduce(t, axis, bool(k.get("keepdims", False)), fold, symfold)
+        r = T.reduce(t, axis, bool(k.get("keepdims", False)), fold, symfold)
+
+        def fin(e):
+            # statistic over concrete axes only
+            if len(e.t) == 1:
+                ((m, c),) = e.t.items()
+                if c == alg.ONE and len(m) == 1 and m[0][0][0] == "multi" and m[0][1] == 1:
+                    return Poly.atom((name + "C",) + tuple(m[0][0][1:]))
+            return e
+
+        return r.map(fin)
 
     return f
 
